@@ -214,3 +214,9 @@ func HashFor(k crypto.Signer) crypto.Hash {
 func PEMCert(c *x509.Certificate) []byte {
 	return pem.EncodeToMemory(&pem.Block{Type: "CERTIFICATE", Bytes: c.Raw})
 }
+
+// DNOf renders the subject of a certificate minted by this package as an RFC 4514 string usable in an x509.subject
+// identity (the minted subjects use C, ST, O and CN with plain values, so no escaping is needed).
+func DNOf(c *x509.Certificate) string {
+	return fmt.Sprintf("C=%s,ST=%s,O=%s,CN=%s", c.Subject.Country[0], c.Subject.Province[0], c.Subject.Organization[0], c.Subject.CommonName)
+}
